@@ -25,6 +25,14 @@ CHECKS = {
              'the product of all dimensions is sampled, not exhausted.',
         note='Trusted: TLC, the character-list abstraction, the comparison of numeric cells by value of their token. The reading of the format is DESIGN.md Appendix A '
              '(the sdss.org specification is not available offline). Known finding D-C02-4 is reported, not suppressed.'),
+    'C03': dict(
+        category='model_checking', design='DESIGN.md section 4 C03',
+        technique='TLA+ state machine (YannyFile: one action per call and outcome over files + object + history) model-checked by TLC with invariants Coherent/ModelCoherent and action '
+                  'properties PrefixPreserved/NoClobber/NoCreateOnAppend/RefusalsChangeNothing; every TLC history replayed on real yanny objects and files; recorded random histories validated event by event by Trace_YannyFile',
+        text='All histories of up to 3 (4 thorough) calls from {write-new, write-over-existing, write-no-name, append rows/pairs/mixed/empty, append-to-missing, external delete, re-read} over 2 files and 2 tables '
+             '(one with a string column that needs quoting, one with an array column), normal and raw mode, lists and record arrays, upper/lower-case keys; two negative-control configurations must be refuted; '
+             'random real histories of 4-12 calls are accepted only if each event is explained by one action with exactly the recorded post-state; corrupted/dropped events are shown to be rejected.',
+        note='Trusted: TLC; the projection of object/files in c03.py (row = table + integer id, other cells checked against the id; comment runs collapsed to one token; byte-prefix measured on the real bytes).'),
     'C06': dict(
         category='model_checking', design='DESIGN.md section 4 C06',
         technique='TLA+ spec (IdLayout) of both bit layouts; TLC enumerates per-field sweeps/boundaries/rejections; '
@@ -48,6 +56,13 @@ CHECKS = {
         text='Bounded-exhaustive: all arrays over 4 values up to length 5 (7 thorough) x all widths x edge flag, all 3x3 (3x4) images, all sorted arrays and sorting permutations, '
              'all rebin shapes over dims {1,2,3,4,6} to rank 2 (3) with every integral target, both modes, rejection targets and the inexact-reciprocal factor family; exact rational comparison.',
         note='Trusted: TLC, Fraction(float) abstraction with 1e-12 (float64) tolerance. Integer-dtype rebin values are only demanded for sample=True (upstream documents integer arithmetic as not IDL-compatible).'),
+    'C16': dict(
+        category='model_checking', design='DESIGN.md section 4 C16',
+        technique='TLA+ spec (ReadSpec: direct statement Specified(req) and the procedure Group/ReadFile/Append/Reorder as actions, SpecAppend transcribed; 14 invariants incl. Run(req)=Specified(req)) model-checked by TLC; '
+                  'every final TLC state executed by the real readspec on a synthetic FITS tree written from TLC\'s own file contents; recorded random readspec/spec_append calls judged by Trace_ReadSpec',
+        text='Bounded-exhaustive: every request vector of length <=3 (4 thorough) over 4 plate-MJD files x 3 fibres in 8 calling conventions, tree-location family, all-fibre calls, all spec_append shapes <=2x3 with shifts; '
+             'random request vectors up to length 30 on a 9-file tree. Cell values encode (file, fibre, hdu, pixel), so row identity, no-shift, zero-pad and loglam are compared exactly.',
+        note='Trusted: TLC, astropy FITS writing of the synthetic tree, value-encoding of cell identity. Intermediate states of readspec are observed only through its spec_append calls.'),
     'C17': dict(
         category='model_checking', design='DESIGN.md section 4 C17',
         technique='TLA+ spec (Reject: djs_reject set algebra, maskinterp over rationals, aesthetics, reflect median, skymask dilation; 41 laws) enumerated by TLC; '
